@@ -2,6 +2,7 @@
 (every feasible member survives; `Err` only if no member is feasible) on harness cases. -/
 import CweModel.Base.Proto
 import CweModel.C04.Model
+import CweModel.C04.DataModel
 open Lean CweModel.Proto
 
 namespace CweModel.Itv.Drv4
@@ -95,6 +96,38 @@ def specRefine (feas : List Int) (r : Option IntervalDomain) (w : Nat) : Option 
 
 def wclass (w : Nat) : String := if w ≤ 8 then "w8" else if w ≤ 64 then "wide" else "w128"
 
+instance (a : DataDomain Nat) (v : Int) : Decidable (∃ x, a.absolute = some x ∧ x.Mem v) := by
+  cases h : a.absolute with
+  | none => exact isFalse (by rintro ⟨x, hx, _⟩; cases hx)
+  | some x => exact decidable_of_iff (x.Mem v) ⟨fun hm => ⟨x, rfl, hm⟩, by rintro ⟨y, hy, hm⟩; cases hy; exact hm⟩
+
+def parseDVal (size : Nat) (j : Json) : Except String (DataDomain Nat) := do
+  let abs : Option IntervalDomain ← match j.getObjVal? "abs" with
+    | .ok (Json.null) => pure none
+    | .ok ja => do pure (some (← parseDom ja))
+    | .error e => throw e
+  let rel ← mapM' (fun (p : Json) => do
+      let arr ← p.getArr?
+      match arr.toList with
+      | [i, d] => do pure ((← i.getNat?), (← parseDom d))
+      | _ => throw "bad relative entry") (← arrF j "rel")
+  return { size := size, relative := rel, absolute := abs, top := ← boolF j "top" }
+
+def showDVal : Option (DataDomain Nat) → String
+  | none => "err"
+  | some d =>
+    let rel := ",".intercalate (d.relative.map fun p => s!"{p.1}:{showDom p.2}")
+    s!"abs={match d.absolute with | some x => showDom x | none => "none"};rel={rel};top={d.top};size={d.size}"
+
+/-- absolute part and top flag of a rendered result (all the specification needs) -/
+def parseDValShown (s : String) : Except String (DataDomain Nat) := do
+  match s.splitOn ";" with
+  | [abs, _, top, _] =>
+    let a := (abs.drop 4).toString
+    let absV ← if a == "none" then pure none else (do pure (some (← parseShown a)))
+    return { size := 0, relative := [], absolute := absV, top := top == "top=true" }
+  | _ => throw s!"bad data domain string {s}"
+
 def handleE (line : String) : Except String String := do
   let j ← Json.parse line
   let k ← strF j "k"
@@ -177,6 +210,40 @@ def handleE (line : String) : Except String String := do
         else if !(impl.endsWith s!";rel=same;top={top}") then some "data-relative-changed" else none
     return verdict s!"data-{kindS}" impl model specErr
       s!"constrained {if impl == "err" then "unsat" else "sat"} {if rel > 0 then "relative" else "absolute-only"}"
+  | "disect" =>
+    -- `DataDomain::intersect`: model = implementation, and the sound part of its contract on the
+    -- implementation output: an absolute value of one operand that the other may hold stays represented
+    let size ← natF j "size"
+    let a ← parseDVal size (← field j "a")
+    let b ← parseDVal size (← field j "b")
+    let model := showDVal (a.intersect b)
+    if impl.startsWith "panic" then return s!"diff class=data-intersect-panic model={model} impl={impl}"
+    let w := 8 * size
+    let wfD (d : DataDomain Nat) : Bool :=
+      (match d.absolute with | some x => wfDom x && x.interval.w == w | none => true) &&
+      d.relative.all (fun p => wfDom p.2 && p.2.interval.w == w)
+    if !(wfD a && wfD b && decide (1 < w) && decide (w ≤ 64)) then return verdict "data-intersect" impl model none "modelonly"
+    let membersOf (d e : DataDomain Nat) : List Int := match d.absolute with
+      | some x => sampleMembers x.interval cap ++
+          (match e.absolute with
+           | some y => membersNear x.interval y.interval.start ++ membersNear x.interval y.interval.stop ++
+               (match x.intersect y with | some z => [z.interval.start, z.interval.stop] | none => [])
+           | none => [])
+      | none => []
+    let feas := ((membersOf a b).filter (fun v => decide ((∃ x, a.absolute = some x ∧ x.Mem v) ∧ b.MayHold v))) ++
+      ((membersOf b a).filter (fun v => decide ((∃ y, b.absolute = some y ∧ y.Mem v) ∧ a.MayHold v)))
+    let specErr : Option String ←
+      if impl == "err" then pure (match feas with | v :: _ => some s!"false-unsat x={v}" | [] => none)
+      else do
+        let r ← parseDValShown impl
+        pure (match feas.find? (fun v => !decide (r.AbsRep v)) with
+          | some v => some s!"abs-lost x={v}"
+          | none => none)
+    let shape (d : DataDomain Nat) : String :=
+      (if d.relative.isEmpty then (if d.absolute.isNone then "none" else "abs") else (if d.absolute.isNone then "rel" else "mixed"))
+        ++ (if d.top then "+top" else "")
+    return verdict "data-intersect" impl model specErr
+      s!"constrained {if impl == "err" then "empty" else "nonempty"} {if feas.isEmpty then "nofeasible" else "feasible"} di:{shape a}x{shape b}"
   | _ => throw s!"unknown case kind {k}"
 
 end CweModel.Itv.Drv4
